@@ -162,6 +162,21 @@ def generate(rng, tier, index):
         tw["name"] = d["name"] + "_twin"
         d["twin"] = tw["name"]
         dets += [d, tw]
+    # accumulating detectors (phasor family, incl. the near-to-far-field projection detector in box mode): with unit stride
+    # and pulse scaling the state is a plain sum over active steps, so a detector with schedule S and one with the
+    # complementary step set must add up to the always-on detector - nothing may be accumulated at an inactive step
+    if rng.uniform() < 0.6:
+        kind = specgen.choice(rng, ["phasor", "projection_angle", "projection_angle"])
+        box = specgen.rand_box(rng, spec["shape"], min_size=2 if kind == "projection_angle" else 1, max_size=4)
+        sw = specgen.rand_switch(rng, T, p_default=0.0) or {"interval": 2}
+        if not (0 < sum(specgen.switch_on_list(sw, T)) < T):
+            sw = {"interval": 2}  # both step sets must be non-empty: a phasor detector that never records is refused at placement
+        on = specgen.switch_on_list(sw, T)
+        comp = {"fixed_on_time_steps": [t for t in range(T) if not on[t]]}
+        base = {"kind": kind, "box": box, "wavelengths": [float(rng.uniform(6, 14)) * specgen.SPACING for _ in range(int(rng.integers(1, 3)))], "scaling_mode": "pulse", "dft_subsample": 1, "exact": True}
+        if kind == "phasor":
+            base.update({"components": specgen.rand_components(rng), "reduce": bool(rng.uniform() < 0.3)})
+        dets += [{**base, "name": "acc_s", "switch": sw, "acc_group": True}, {**base, "name": "acc_c", "switch": comp}, {**base, "name": "acc_all"}]
     spec["detectors"] = dets
     spec["ops"] = [{"op": "crash_restore", "at": int(t)} for t in sorted(set(int(x) for x in rng.integers(1, T, size=int(rng.integers(0, 3)))))]
     return spec
@@ -229,6 +244,19 @@ def _exec_grid(spec):
                     exp_idx.append(-1)
             if [int(x) for x in idx] != exp_idx:
                 viol.append({"monitor": "index_map_mismatch", "switch": sw, "T": T, "got": [int(x) for x in idx], "want": exp_idx})
+    # exact-on-step window edges: start = k*dt / end = k*dt for an awkward dt (the 50 nm grid's own). The documented rule is the
+    # closed comparison start <= t*dt <= end in plain float arithmetic, which the oracle mirrors expression by expression
+    # (t*dt with the same operands), so these knife-edge cases are decidable without a tolerance
+    dt_awk = 0.99 / math.sqrt(3) * 50e-9 / 299792458.0
+    Tk = 72
+    for k in range(0, Tk):
+        for sw in ({"start_time": k * dt_awk}, {"end_time": k * dt_awk}, {"start_time": k * dt_awk, "end_time": (k + 3) * dt_awk}, {"start_time": k * dt_awk, "on_for_time": 4 * dt_awk}):
+            want = rule_on_list(sw, Tk, dt_awk)
+            got = fdtdx.OnOffSwitch(**sw).calculate_on_list(num_total_time_steps=Tk, time_step_duration=dt_awk)
+            stats["grid_points"] += 1
+            stats["exact_edge_points"] = stats.get("exact_edge_points", 0) + 1
+            if [bool(x) for x in got] != want:
+                viol.append({"monitor": "on_list_mismatch", "switch": sw, "T": Tk, "dt": dt_awk, "edge_on_step": k, "got": [int(bool(x)) for x in got], "want": [int(x) for x in want]})
     import hashlib, json
 
     digest = hashlib.sha1(json.dumps([stats, viol], sort_keys=True, default=str).encode()).hexdigest()[:16]
@@ -351,7 +379,22 @@ def execute(spec):
     # detectors: exactly-once, ordered, equal to the trajectory
     dets = dr.detectors_np(state)
     n_records = 0
+    if any(d.get("acc_group") for d in spec["detectors"]):
+        keys = sorted(k.split("/", 1)[1] for k in dets if k.startswith("acc_all/"))
+        worst = 0.0
+        for key in keys:
+            a, b, c = dets["acc_s/" + key], dets["acc_c/" + key], dets["acc_all/" + key]
+            sc_k = max(float(np.max(np.abs(c))) if c.size else 0.0, float(np.max(np.abs(a))) if a.size else 0.0, float(np.max(np.abs(b))) if b.size else 0.0)
+            worst = max(worst, dr.rel_diff(a + b, c, sc_k if sc_k > 0 else None))
+        resid["accumulator_additivity"] = worst if np.isfinite(worst) else 1e300
+        stats["probe_accumulator_group_" + next(d["kind"] for d in spec["detectors"] if d.get("acc_group"))] = 1
+        if not (worst <= 1e-12):
+            viol.append({"monitor": "accumulated_at_inactive_step", "kind": next(d["kind"] for d in spec["detectors"] if d.get("acc_group")), "metric": "rel_diff of state(S)+state(complement) vs state(always on)", "value": worst, "tolerance": 1e-12})
+        else:
+            n_records += 1
     for d in spec["detectors"]:
+        if d["name"].startswith("acc_"):
+            continue
         on = det_on[d["name"]]
         active = [t for t in range(T) if on[t]]
         if d.get("twin"):
